@@ -81,11 +81,16 @@ Definition owner_eqb (a b : owner) : bool :=
   end.
 Inductive entity := EnType (t : ty) | EnRes (r : id).
 
+(** A type item of an instance type / a type import of a component type, as seen by [use_or_own]. *)
+Record site := mksite { st_node : vid; st_owner : owner; st_name : str; st_rf : vid; st_cr : vid }.
+
 Record cstate := mkcs {
   cs_types : types;
   cs_cache : list (vid * entity);              (* HashMap: newest first, first match wins *)
   cs_resmap : list (nat * id);
-  cs_owners : list (vid * (owner * str)) }.
+  cs_owners : list (vid * (owner * str));
+  cs_log : list site }.                        (* GHOST: the successful [use_or_own] calls, oldest first.  Nothing reads
+                                                  it; it lets theorems speak about the order of the type items. *)
 
 Fixpoint nassoc {B} (k : nat) (l : list (nat * B)) : option B :=
   match l with
@@ -93,9 +98,9 @@ Fixpoint nassoc {B} (k : nat) (l : list (nat * B)) : option B :=
   | (k', v) :: r => if Nat.eqb k k' then Some v else nassoc k r
   end.
 
-Definition with_types (s : cstate) (t : types) : cstate := mkcs t (cs_cache s) (cs_resmap s) (cs_owners s).
+Definition with_types (s : cstate) (t : types) : cstate := mkcs t (cs_cache s) (cs_resmap s) (cs_owners s) (cs_log s).
 Definition cache_put (s : cstate) (v : vid) (e : entity) : cstate :=
-  mkcs (cs_types s) ((v, e) :: cs_cache s) (cs_resmap s) (cs_owners s).
+  mkcs (cs_types s) ((v, e) :: cs_cache s) (cs_resmap s) (cs_owners s) (cs_log s).
 
 (** * Arena primitives ([Types::add_*], [IndexMut]) *)
 Definition add_def (t : types) (d : deftype) : id * types :=
@@ -177,10 +182,12 @@ Fixpoint find_owner (fuel : nat) (g : vgraph) (ow : list (vid * (owner * str))) 
 Definition remember_owner (cr : vid) (o : owner * str) (s : cstate) : cstate :=
   match nassoc cr (cs_owners s) with
   | Some _ => s
-  | None => mkcs (cs_types s) (cs_cache s) (cs_resmap s) ((cr, o) :: cs_owners s)
+  | None => mkcs (cs_types s) (cs_cache s) (cs_resmap s) ((cr, o) :: cs_owners s) (cs_log s)
   end.
+Definition log_site (x : site) (s : cstate) : cstate :=
+  mkcs (cs_types s) (cs_cache s) (cs_resmap s) (cs_owners s) (cs_log s ++ [x]).
 
-Definition use_or_own (fuel : nat) (g : vgraph) (ow : owner) (name : str) (referenced created : vid) (s : cstate)
+Definition use_or_own (fuel : nat) (g : vgraph) (vn : vid) (ow : owner) (name : str) (referenced created : vid) (s : cstate)
   : cres cstate :=
   match find_owner fuel g (cs_owners s) referenced with
   | None => COutOfFuel
@@ -206,12 +213,13 @@ Definition use_or_own (fuel : nat) (g : vgraph) (ow : owner) (name : str) (refer
           | OwWorld _ => COk s
           end ;;
     (* the created identifier denotes the owner's item as well *)
-    COk (remember_owner created (other, orig) s1)
+    COk (log_site (mksite vn ow name referenced created) (remember_owner created (other, orig) s1))
   | Some None =>
     (* take ownership; [assert!(prev.is_none())] *)
     match nassoc created (cs_owners s) with
     | Some _ => CPanic PDupOwner
-    | None => COk (mkcs (cs_types s) (cs_cache s) (cs_resmap s) ((created, (ow, name)) :: cs_owners s))
+    | None => COk (log_site (mksite vn ow name referenced created)
+                            (mkcs (cs_types s) (cs_cache s) (cs_resmap s) ((created, (ow, name)) :: cs_owners s) (cs_log s)))
     end
   end.
 
@@ -234,7 +242,7 @@ Definition c_resource (fuel : nat) (g : vgraph) (name : str) (v : vid) (s : csta
         end
       | None =>
         let '(r, t) := add_res (cs_types s) (mkres name None) in
-        COk (r, mkcs t ((v, EnRes r) :: cs_cache s) ((rid, r) :: cs_resmap s) (cs_owners s))
+        COk (r, mkcs t ((v, EnRes r) :: cs_cache s) ((rid, r) :: cs_resmap s) (cs_owners s) (cs_log s))
       end
     | _ => CPanic PBadIndex
     end
@@ -411,17 +419,17 @@ Section EntityBody.
   Variable g : vgraph.
   Variable rec_entity : str -> vent -> cstate -> cres (kind * cstate).
 
-  Fixpoint inst_loop (me : id) (l : list (str * vent)) (s : cstate) : cres cstate :=
+  Fixpoint inst_loop (vn : vid) (me : id) (l : list (str * vent)) (s : cstate) : cres cstate :=
     match l with
     | [] => COk s
     | (name, e) :: r =>
       '(k, s1) <- rec_entity name e s ;;
       s2 <- match e with
-            | EType rf cr => s' <- use_or_own fuel g (OwIface me) name rf cr s1 ;; reset_self_owner me k s'
+            | EType rf cr => s' <- use_or_own fuel g vn (OwIface me) name rf cr s1 ;; reset_self_owner me k s'
             | _ => COk s1
             end ;;
       s3 <- put_if_export me name k s2 ;;
-      inst_loop me r s3
+      inst_loop vn me r s3
     end.
 
   Definition instance_body (name : option str) (v : vid) (s : cstate) : cres (id * cstate) :=
@@ -432,23 +440,23 @@ Section EntityBody.
       match node_of g v with
       | Some (NInst exports) =>
         let '(me, t) := add_if (cs_types s) (mkif (iface_id_of name) [] []) in
-        s1 <- inst_loop me exports (with_types s t) ;;
+        s1 <- inst_loop v me exports (with_types s t) ;;
         COk (me, cache_put s1 v (EnType (TInterface me)))
       | _ => CPanic PBadIndex
       end
     end.
 
-  Fixpoint comp_imports (me : id) (l : list (str * vent)) (s : cstate) : cres cstate :=
+  Fixpoint comp_imports (vn : vid) (me : id) (l : list (str * vent)) (s : cstate) : cres cstate :=
     match l with
     | [] => COk s
     | (name, e) :: r =>
       '(k, s1) <- rec_entity name e s ;;
       s2 <- match e with
-            | EType rf cr => use_or_own fuel g (OwWorld me) name rf cr s1
+            | EType rf cr => use_or_own fuel g vn (OwWorld me) name rf cr s1
             | _ => COk s1
             end ;;
       s3 <- put_world_import me name k s2 ;;
-      comp_imports me r s3
+      comp_imports vn me r s3
     end.
   Fixpoint comp_exports (me : id) (l : list (str * vent)) (s : cstate) : cres cstate :=
     match l with
@@ -467,7 +475,7 @@ Section EntityBody.
       match node_of g v with
       | Some (NComp imports exports) =>
         let '(me, t) := add_world (cs_types s) (mkworld (iface_id_of name) [] [] []) in
-        s1 <- comp_imports me imports (with_types s t) ;;
+        s1 <- comp_imports v me imports (with_types s t) ;;
         s2 <- comp_exports me exports s1 ;;
         COk (me, cache_put s2 v (EnType (TWorld me)))
       | _ => CPanic PBadIndex
@@ -548,11 +556,17 @@ Fixpoint find_definitions (g : vgraph) (t : types) (l : list (str * kind)) (acc 
     end
   end.
 
-Definition cs_init (t : types) : cstate := mkcs t [] [] [].
+Definition cs_init (t : types) : cstate := mkcs t [] [] [] [].
 
-Definition from_graph (hfuel fuel : nat) (g : vgraph) (t0 : types) : cres (package * types) :=
+(** the two conversion loops of [from_bytes]; the final converter state is kept for the theorems *)
+Definition conv_items (hfuel fuel : nat) (g : vgraph) (t0 : types)
+  : cres (list (str * kind) * list (str * kind) * cstate) :=
   '(imports, s1) <- collect (c_entity hfuel fuel g) (vg_imports g) [] (cs_init t0) ;;
   '(exports, s2) <- collect (c_entity hfuel fuel g) (vg_exports g) [] s1 ;;
+  COk (imports, exports, s2).
+
+Definition from_graph (hfuel fuel : nat) (g : vgraph) (t0 : types) : cres (package * types) :=
+  '(imports, exports, s2) <- conv_items hfuel fuel g t0 ;;
   let '(w, t1) := add_world (cs_types s2) (mkworld None [] imports exports) in
   let '(i, t2) := add_if t1 (mkif None [] exports) in
   match get_world t2 w with
